@@ -40,6 +40,28 @@ def stepNextCmd (file : Bytes) : Nat × Option Int :=
     | none => (1, none)
     | some p => (0, some p)
 
+/-- util.sh `has_steps`: walking the rows from the front, is there a record
+    that is not a skip record?  `trap_exit` removes the invocation directory
+    exactly when this is false ("do not leave an empty build around"). -/
+def hasSteps : List Row → Bool
+  | [] => false
+  | r :: rs => if rowSkip r then hasSteps rs else true
+
+/-- `has_steps file` as a command: its exit status (an unreadable file ends
+    the walk at once) -/
+def hasStepsCmd (file : Bytes) : Nat :=
+  match parseFile file with
+  | none => 1
+  | some rows => if hasSteps rows then 0 else 1
+
+/-- what `trap_exit` decides from the step file: (report wanted, directory
+    kept).  `err` is the invocation's exit status, `own` whether the lock file
+    names this invocation. -/
+def trapExitDecision (rows : List Row) (own : Bool) (err : Int) : Bool × Bool :=
+  let hs := hasSteps rows
+  let reachedEnd := rows.any (fun r => rowName r == END)
+  (own && hs && (err != 0 || reachedEnd), hs)
+
 end StepFile
 
 /-! ### the sequential orchestrator -/
